@@ -7,6 +7,7 @@ from hypothesis import strategies as st
 from vlib import desc as D
 from vlib import gen as GEN
 from vlib import ref_filter as RF
+from vlib import ref_geom as G
 from vlib.harness import Check
 
 CHECK = Check(
@@ -313,39 +314,82 @@ def results3d(ctx, d):
 @st.composite
 def obj_lists2d(draw, tier="quick"):
     c = draw(criteria(with_unknown_target=False))
-    for k in ("max_x", "max_y", "max_d", "min_d", "min_pts"):
+    # ROI objects may also carry a 3D position (traffic lights; in base_link or in a camera frame with the camera ->
+    # base_link transform supplied): then the x/y and planar-distance bounds apply to them like to 3D objects
+    pos_mode = draw(st.sampled_from(["none", "none", "base_link", "camera"]))
+    for k in ("min_pts",) if pos_mode != "none" else ("max_x", "max_y", "max_d", "min_d", "min_pts"):
         c.pop(k, None)
     targets = c["targets"] or ["car"]
     pool = list(dict.fromkeys(list(targets) + ["unknown", "false_positive", "animal"]))
     objs = []
     for i in range(draw(GEN.counts(0, 10))):
         lab = draw(st.sampled_from(pool))
-        objs.append(
-            {
-                "cam": draw(st.sampled_from(GEN.CAMS)),
-                "roi": [draw(st.integers(0, 1000)), draw(st.integers(0, 1000)), draw(st.integers(1, 200)), draw(st.integers(1, 200))],
-                "label": lab,
-                "name": draw(st.sampled_from(NAMES[lab])),
-                "attrs": draw(st.lists(st.sampled_from(ATTRS), max_size=2, unique=True)),
-                "score": draw(st.sampled_from([0.0, 0.1, 0.3, 0.5, 0.6, 0.9, 1.0])),
-                "uuid": draw(st.sampled_from([f"u{k}" for k in range(8)])),
-            }
-        )
-    return {"objs": objs, "is_gt": draw(st.booleans()), "crit": c}
+        o = {
+            "cam": draw(st.sampled_from(GEN.CAMS)),
+            "roi": [draw(st.integers(0, 1000)), draw(st.integers(0, 1000)), draw(st.integers(1, 200)), draw(st.integers(1, 200))],
+            "label": lab,
+            "name": draw(st.sampled_from(NAMES[lab])),
+            "attrs": draw(st.lists(st.sampled_from(ATTRS), max_size=2, unique=True)),
+            "score": draw(st.sampled_from([0.0, 0.1, 0.3, 0.5, 0.6, 0.9, 1.0])),
+            "uuid": draw(st.sampled_from([f"u{k}" for k in range(8)])),
+        }
+        if pos_mode != "none" and draw(st.integers(0, 5)) > 0:
+            # planar distance next to one of the bounds in play (3 % .. 8 % off), height up to +-12 m: the planar and the
+            # 3D distance fall on different sides of the bound
+            b = draw(st.sampled_from([2.0, 6.0, 8.0, 15.0, 30.0, 60.0])) * (1 + draw(st.sampled_from([0.03, -0.03, 0.08, -0.08, 0.4, -0.4])))
+            a = draw(GEN.fl(-3.1, 3.1))
+            o["pos_ego"] = [b * math.cos(a) + 0.0013, b * math.sin(a) - 0.0007, draw(st.sampled_from([0.0, 1.5, -4.0, 8.0, 12.0]))]
+        objs.append(o)
+    cams = {}
+    if pos_mode == "camera":
+        for cam in GEN.CAMS:
+            cams[cam] = [draw(GEN.fl(-2, 2)), draw(GEN.fl(-1, 1)), draw(GEN.fl(0.5, 2.5)), draw(GEN.fl(-3.1, 3.1)), draw(GEN.fl(-0.3, 0.3)), draw(GEN.fl(-0.3, 0.3))]
+    return {"objs": objs, "is_gt": draw(st.booleans()), "crit": c, "pos_mode": pos_mode, "cams": cams}
 
 
 @CHECK.given("objects2d", lambda tier: obj_lists2d(tier), quick=250, thorough=10000)
 def objects2d(ctx, d):
+    from perception_eval.common.schema import FrameID
+    from perception_eval.common.transform import HomogeneousMatrix, TransformDict
     from perception_eval.evaluation.matching.objects_filter import filter_objects
 
     c, is_gt = d["crit"], d["is_gt"]
-    objs = D.objs2d(d["objs"])
+    mode = d.get("pos_mode", "none")
+    descs, tr = [], None
+    tfs = {cam: G.ego_tf(pose) for cam, pose in (d.get("cams") or {}).items()}  # camera -> base_link
+    for o in d["objs"]:
+        o2 = dict(o)
+        if o.get("pos_ego") is not None:
+            if mode == "base_link":
+                o2["cam"] = "base_link"
+                o2["pos"] = list(o["pos_ego"])
+            else:
+                o2["pos"] = list(G.tf_apply(G.tf_inv(tfs[o["cam"]]), tuple(o["pos_ego"])))
+        descs.append(o2)
+    if mode == "camera":
+        with ctx.under_test("TransformDict(camera -> base_link)"):
+            tr = TransformDict([HomogeneousMatrix(t, q, src=FrameID.from_value(cam), dst=FrameID.BASE_LINK) for cam, (t, q) in tfs.items()])
+        if tr is None:
+            return
+    objs = D.objs2d(descs)
     out = None
     with ctx.under_test("filter_objects(2D)"):
-        out = filter_objects(objs, is_gt, **_kwargs(c))
+        out = filter_objects(objs, is_gt, transforms=tr, **_kwargs(c)) if tr is not None else filter_objects(objs, is_gt, **_kwargs(c))
     if out is None:
         return
-    ref = [i for i, o in enumerate(d["objs"]) if RF.keep_object({"label": o["label"], "x": None, "y": None, "score": o["score"], "pts": None, "uuid": o["uuid"], "name": o["name"], "attrs": o["attrs"]}, is_gt, c)[0]]
+    ref, near = [], False
+    for i, o in enumerate(d["objs"]):
+        pe = o.get("pos_ego")
+        keep, margin = RF.keep_object({"label": o["label"], "x": pe[0] if pe else None, "y": pe[1] if pe else None, "score": o["score"], "pts": None, "uuid": o["uuid"], "name": o["name"], "attrs": o["attrs"]}, is_gt, c)
+        near = near or margin < 1e-6
+        if keep:
+            ref.append(i)
+    if near:
+        ctx.boundary()
+        return
+    ctx.cls("pos_" + mode)
+    if any(o.get("pos_ego") is not None and abs(o["pos_ego"][2]) > 1 for o in d["objs"]) and (c.get("max_d") is not None):
+        ctx.cls("roi_objects_with_height_under_distance_bounds")
     got = [next((i for i, o in enumerate(objs) if o is x), None) for x in out]
-    ctx.require(got == ref, "kept-set-2d", lambda: f"filter_objects(2D, is_gt={is_gt}) kept {got}, criteria {c} keep {ref}")
+    ctx.require(got == ref, "kept-set-2d", lambda: f"filter_objects(2D, is_gt={is_gt}, positions: {mode}) kept {got}, criteria {c} keep {ref} (ego-frame positions {[o.get('pos_ego') for o in d['objs']]})")
     ctx.mark_nontrivial(len(objs) >= 4 and 0 < len(got) < len(objs) and _active(c) >= 2)
